@@ -2,7 +2,7 @@
 import re
 from rules.common import (opmap, PredTrue, PredFalse, TryOk, VariantEdge, no_effects, where, flat_atoms, all_origins, exact_origins, ops_of, show,
                           origin_match, field_val, pool_writes, effects_signature)
-from base import CutPolicy
+from base import CutPolicy, rel_sign
 from absint import EMPTY, V, vfield, tagvals, const_of
 
 EXPLANATION = ("static analysis (MIR abstract interpretation): the swap tolerance reaches both comparisons only as "
@@ -19,113 +19,141 @@ LEVEL_TEXT = "Structural obligations over all paths of assert_max_slippage, asse
 LEVEL_NOTE = "Not decided: what is measured (numeric); boundary equality; per-index operand selection."
 PM = "pool_manager"
 TOL = {'Const("0.01")', 'Const("0.5")', "max_slippage"}
-FLOORS = {"POLAR-swap-tolerance": 2, "CUT-slippage-before-write": 3}
+FLOORS = {"POLAR-swap-tolerance": 2, "CUT-slippage-before-write": 4}
 
 
-def preds(A, fn_suffix, names):
+def cmp_preds(A):
+    """every `>`-shaped comparison of the analysis, canonicalised: (event, greater side, smaller side, strict, reject_on)
+    where the comparison reads `greater > smaller` (or >=) when it holds"""
+    from base import rel_atoms
     out = []
     for e in A.switches():
-        if not e.fn.endswith(fn_suffix):
-            continue
-        for a in e.vals[0].atoms:
-            if isinstance(a[0], tuple) and a[0][0] == "pred" and a[0][1] in names:
-                out.append((e, a[0]))
+        for (n, a, pos) in rel_atoms(e.vals[0]):
+            x, y = a[0], a[1]
+            if n in ("gt", "ge"):
+                g, sm = x, y
+            else:
+                g, sm = y, x
+            out.append((e, g, sm, n in ("gt", "lt"), pos))
     return out
 
 
 def run(W, chk):
+    from rules import swapcore as sc
+    sc.N.bind(W)
+    C = sc.N.C
     d = W.F.const_literal("pool_manager::swap::perform_swap::DEFAULT_SLIPPAGE")
     m = W.F.const_literal("pool_manager::swap::perform_swap::MAX_ALLOWED_SLIPPAGE")
-    chk.expect(d == '"0.01"' and m == '"0.5"', "CONST-slippage", "DEFAULT/MAX", "default 0.01, cap 0.5", "DEFAULT_SLIPPAGE=%s MAX_ALLOWED_SLIPPAGE=%s" % (d, m), "")
-    H = W.run_fn("pool_manager::swap::perform_swap::assert_max_slippage")
-    gts = preds(H, "assert_max_slippage", ("gt",))
-    chk.expect(len(gts) == 2, "POLAR-swap-tolerance", "anchor", "two tolerance comparisons (belief price, spread)", "%d `>` comparisons in assert_max_slippage" % len(gts), H.entry)
-    for (e, p) in gts:
-        lhs, rhs = opmap(p[2]), opmap(p[3])
-        okr = set(rhs) == TOL and all(ops == frozenset(["min"]) for ops in rhs.values())
-        okl = not (set(lhs) & TOL)
-        chk.expect(okr and okl, "POLAR-swap-tolerance", "bb%d" % e.bb,
-                   "reject iff measured > min(max_slippage or 0.01, 0.5): the tolerance sits on the smaller side of a reject, through unwrap_or and min only",
-                   "tolerance comparison is %s > %s" % ({k: sorted(v) for k, v in lhs.items()}, {k: sorted(v) for k, v in rhs.items()}), where(e))
-    # belief-price branch: shortfall = expected - return, relative to expected
-    bel = [(e, p) for (e, p) in gts if "belief_price" in opmap(p[2])]
-    for (e, p) in bel:
-        lhs = opmap(p[2])
-        ok = "sub:l" in lhs.get("offer_amount", ()) and "sub:r" in lhs.get("return_amount", ()) and "sub:l" not in lhs.get("return_amount", ()) \
-            and "div:r" in lhs.get("offer_amount", ()) and "div:r" in lhs.get("belief_price", ())
+    if d is None or m is None:
+        # constants moved: look the literals up wherever they are declared
+        lits = {W.F.const_literal(b.id) for b in W.F.fns(PM) if b.kind == "const"}
+        chk.expect('"0.01"' in lits and '"0.5"' in lits, "CONST-slippage", "DEFAULT/MAX", "default 0.01, cap 0.5 declared", "slippage constants 0.01 / 0.5 not found", "")
+    else:
+        chk.expect(d == '"0.01"' and m == '"0.5"', "CONST-slippage", "DEFAULT/MAX", "default 0.01, cap 0.5", "DEFAULT_SLIPPAGE=%s MAX_ALLOWED_SLIPPAGE=%s" % (d, m), "")
+
+    # ---------------- swap tolerance, analysed from the Swap entry point with the swap computation as a cut point
+    A = W.run(PM, "execute", ("Swap",), CutPolicy([], opaque=[sc.N.CS]))
+    TOLS = {'Const("0.01")', 'Const("0.5")', "msg.Swap.max_slippage"}
+    tol = [(e, g, sm, strict, pos) for (e, g, sm, strict, pos) in cmp_preds(A) if 'Const("0.5")' in opmap(sm) or 'Const("0.5")' in opmap(g)]
+    chk.expect(len(tol) == 2, "POLAR-swap-tolerance", "anchor", "two comparisons involve the capped tolerance (belief price, spread)",
+               "%d comparisons involve the 0.5 cap" % len(tol), A.entry)
+    for (e, g, sm, strict, pos) in tol:
+        gm, smm = opmap(g), opmap(sm)
+        okr = set(smm) == TOLS and all(ops == frozenset(["min"]) for ops in smm.values()) and not (set(gm) & TOLS) and strict
+        chk.expect(okr, "POLAR-swap-tolerance", "bb%d" % e.bb,
+                   "reject iff measured > min(max_slippage or 0.01, 0.5): the tolerance sits on the smaller side of a strict reject, through unwrap_or and min only",
+                   "tolerance comparison is %s > %s (strict %s)" % ({k: sorted(v) for k, v in gm.items()}, {k: sorted(v) for k, v in smm.items()}, strict), where(e))
+    bel = [t for t in tol if "msg.Swap.belief_price" in opmap(t[1])]
+    spr = [t for t in tol if "msg.Swap.belief_price" not in opmap(t[1])]
+    for (e, g, sm, strict, pos) in bel:
+        lhs = opmap(g)
+        ok = "sub:l" in lhs.get("info.funds[*].amount", ()) and "sub:r" in lhs.get(C + ".return_amount", ()) and "sub:l" not in lhs.get(C + ".return_amount", ()) \
+            and "div:r" in lhs.get("info.funds[*].amount", ()) and "div:r" in lhs.get("msg.Swap.belief_price", ())
         chk.expect(ok, "POLAR-belief-shortfall", "belief branch", "(expected - return) / expected with expected = offer / belief_price",
                    "belief-price slippage is computed as %s" % {k: sorted(v) for k, v in lhs.items()}, where(e))
-    lt = [(e, p) for (e, p) in preds(H, "assert_max_slippage", ("lt",)) if exact_origins(p[2]) == {"return_amount"}]
-    chk.expect(len(bel) == 1 and len(lt) == 1 and {"offer_amount", "belief_price"} <= set(opmap(lt[0][1][3])), "POLAR-belief-shortfall", "guard",
-               "only a return below offer/belief_price can be rejected", "belief guard not found (%d, %d)" % (len(bel), len(lt)), H.entry)
-    spr = [(e, p) for (e, p) in gts if "belief_price" not in opmap(p[2])]
-    for (e, p) in spr:
-        lhs = opmap(p[2])
-        ok = set(lhs) == {"slippage_amount", "return_amount"} and "div:l" in lhs["slippage_amount"] and "div:r" in lhs["return_amount"] and "div:r" in lhs["slippage_amount"]
+    exp_guard = [(e, g, sm) for (e, g, sm, strict, pos) in cmp_preds(A) if exact_origins(sm) == {C + ".return_amount"} and not ops_of(sm)
+                 and {"info.funds[*].amount", "msg.Swap.belief_price"} <= set(opmap(g))]
+    chk.expect(len(bel) == 1 and len(exp_guard) >= 1, "POLAR-belief-shortfall", "guard", "only a return below offer/belief_price can be rejected",
+               "belief guard `return < expected` not found (%d belief comparisons, %d guards)" % (len(bel), len(exp_guard)), A.entry)
+    for (e, g, sm, strict, pos) in spr:
+        lhs = opmap(g)
+        ok = set(lhs) == {C + ".slippage_amount", C + ".return_amount"} and "div:l" in lhs[C + ".slippage_amount"] and "div:r" in lhs[C + ".return_amount"] \
+            and "div:r" in lhs[C + ".slippage_amount"]
         chk.expect(ok, "POLAR-spread", "spread branch", "spread / (return + spread) > tolerance rejects", "spread ratio computed as %s" % {k: sorted(v) for k, v in lhs.items()}, where(e))
-    # cutting both comparisons' reject edges is not needed; instead: assert_max_slippage success is must-pass-through for the pool write
-    g = [TryOk(r"swap::perform_swap::assert_max_slippage$")]
-    no_effects(chk, W, "CUT-slippage-before-write", PM, ("Swap",), g, "", effects=pool_writes)
-    no_effects(chk, W, "CUT-slippage-before-write", PM, ("ExecuteSwapOperations",), g, "", effects=pool_writes)
-    # the caller's tolerance and belief price reach it unchanged
-    for vp, src, bp in ((("Swap",), "msg.Swap.max_slippage", {"msg.Swap.belief_price"}), (("ExecuteSwapOperations",), "msg.ExecuteSwapOperations.max_slippage", set())):
-        A = W.run(PM, "execute", vp, CutPolicy([], opaque=["pool_manager::helpers::compute_swap"]))
-        for e in A.calls_id(r"assert_max_slippage$"):
-            da = e.extra["dargs"]
-            ok = exact_origins(da[1]) == {src} and exact_origins(da[0]) == bp and exact_origins(da[3]) == {"Call(helpers::compute_swap).return_amount"} \
-                and exact_origins(da[4]) == {"Call(helpers::compute_swap).slippage_amount"}
-            chk.expect(ok, "AGREE-slippage-args", "/".join(vp), "assert_max_slippage(belief, caller tolerance, offer, computed return, computed spread)",
-                       "assert_max_slippage args: belief %s tol %s return %s spread %s" % (sorted(all_origins(da[0])), sorted(all_origins(da[1])), sorted(all_origins(da[3])), sorted(all_origins(da[4]))), where(e))
 
-    # ---- deposit tolerance
-    D = W.run_fn("pool_manager::helpers::assert_slippage_tolerance")
-    dg = preds(D, "assert_slippage_tolerance", ("gt",))
-    above1 = [(e, p) for (e, p) in dg if exact_origins(p[2]) == {"slippage_tolerance"} and exact_origins(p[3]) == {"Const(1)"}]
-    chk.expect(len(above1) == 1, "CUT-tolerance-above-1", "anchor", "`tolerance > 1` comparison present", "%d `tolerance > 1` comparisons" % len(above1), D.entry)
-    pol = CutPolicy([PredFalse("assume tolerance > 1", lambda pn, pa: pn == "gt" and exact_origins(pa[0]) == {"slippage_tolerance"} and exact_origins(pa[1]) == {"Const(1)"}),
-                     VariantEdge("assume tolerance given", r"^slippage_tolerance$", ["None"]),
-                     PredTrue("assume pool funded", lambda pn, pa: pn == "any")])
-    D2 = W.run_fn("pool_manager::helpers::assert_slippage_tolerance", policy=pol)
-    tv = tagvals(D2.ret, "#v:std::result::Result") if D2.ret is not None else {"Err"}
-    chk.expect(tv == {"Err"}, "CUT-tolerance-above-1", "refused", "a tolerance above 1 on a funded pool always ends in Err", "tolerance > 1 can be accepted (%s)" % tv, D.entry)
-    cp = [(e, p) for (e, p) in dg if "slippage_tolerance" in opmap(p[2]) and (e, p) not in above1]
-    ss = [(e, p) for (e, p) in dg if exact_origins(p[3]) == {"slippage_tolerance"}]
-    chk.expect(len(cp) == 2 and len(ss) == 1, "POLAR-deposit-tolerance", "anchor", "2 constant-product comparisons, 1 stableswap comparison",
-               "deposit tolerance comparisons found: cp %d ss %d" % (len(cp), len(ss)), D.entry)
-    for (e, p) in cp:
-        lhs, rhs = opmap(p[2]), opmap(p[3])
-        t = lhs.get("slippage_tolerance", frozenset())
-        ok = {"sub:r", "mul"} <= t and "sub:l" not in t and "slippage_tolerance" not in rhs and "deposits[*].amount" in lhs and "pool_assets[*].amount" in rhs
+    # ---------------- the slippage verdict is must-pass-through for the pool write
+    def tol_accept(src):
+        def test(pn, pa):
+            # `measured > tolerance` : assume it false (keep only the accept edge) => used with PredTrue to remove the accept edge
+            s = rel_sign(pn, pa, lambda v: 'Const("0.5")' not in opmap(v), ">", lambda v: 'Const("0.5")' in opmap(v) and src in opmap(v))
+            return -s if s else 0      # the guard is `not (measured > tol)`
+        return test
+    below = lambda src_ret: (lambda pn, pa: -rel_sign(pn, pa, lambda v: exact_origins(v) == {src_ret}, "<", lambda v: "info.funds[*].amount" in opmap(v)) or 0)  # noqa: E731
+    for vp, src, bp in ((("Swap",), "msg.Swap.max_slippage", r"^msg\.Swap\.belief_price$"), (("ExecuteSwapOperations",), "msg.ExecuteSwapOperations.max_slippage", None)):
+        cuts = [PredTrue("within tolerance", tol_accept(src))]
+        extra = [VariantEdge("assume no belief price", bp, ["Some"])] if bp else []
+        no_effects(chk, W, "CUT-slippage-before-write", PM, vp, cuts, " [spread]", effects=pool_writes, extra=extra, opaque=[sc.N.CS])
+    cuts = [PredTrue("within tolerance", tol_accept("msg.Swap.max_slippage")), PredTrue("return >= expected", below(C + ".return_amount"))]
+    no_effects(chk, W, "CUT-slippage-before-write", PM, ("Swap",), cuts, " [belief price]", effects=pool_writes,
+               extra=[VariantEdge("assume belief price", r"^msg\.Swap\.belief_price$", ["None"])], opaque=[sc.N.CS])
+
+    # ---------------- deposit tolerance, analysed from ProvideLiquidity
+    P = W.run(PM, "execute", ("ProvideLiquidity",))
+    T = "msg.ProvideLiquidity.liquidity_max_slippage"
+    dg = [t for t in cmp_preds(P) if T in opmap(t[1]) or T in opmap(t[2])]
+    above1 = [t for t in dg if exact_origins(t[1]) == {T} and exact_origins(t[2]) == {"Const(1)"}]
+    cp = [t for t in dg if T in opmap(t[1]) and t not in above1]
+    ss = [t for t in dg if exact_origins(t[2]) == {T}]
+    chk.expect(len(above1) == 1 and len(cp) == 2 and len(ss) == 1, "POLAR-deposit-tolerance", "anchor", "`tolerance > 1`, 2 constant-product and 1 stableswap comparison",
+               "deposit tolerance comparisons found: >1 %d, cp %d, ss %d" % (len(above1), len(cp), len(ss)), P.entry)
+    for (e, g, sm, strict, pos) in cp:
+        lhs, rhs = opmap(g), opmap(sm)
+        t = lhs.get(T, frozenset())
+        ok = {"sub:r", "mul"} <= t and "sub:l" not in t and T not in rhs and "info.funds[*].amount" in lhs and "Store(POOLS).assets[*].amount" in rhs and strict
         chk.expect(ok, "POLAR-deposit-tolerance", "cp.bb%d" % e.bb, "reject iff deposit_ratio * (1 - tolerance) > pool_ratio (larger tolerance never rejects more)",
                    "constant-product deposit check is %s > %s" % ({k: sorted(v) for k, v in lhs.items()}, {k: sorted(v) for k, v in rhs.items()}), where(e))
-    for (e, p) in ss:
-        lhs = opmap(p[2])
-        ok = "slippage_tolerance" not in lhs and not ops_of(p[3])
+    for (e, g, sm, strict, pos) in ss:
+        lhs = opmap(g)
+        ok = T not in lhs and not ops_of(sm) and strict
         chk.expect(ok, "POLAR-deposit-tolerance", "ss.bb%d" % e.bb, "reject iff measured > tolerance", "stableswap deposit check lhs %s" % sorted(lhs), where(e))
-    A = W.run(PM, "execute", ("ProvideLiquidity",))
-    for e in A.calls_id(r"helpers::assert_slippage_tolerance$"):
-        da = e.extra["dargs"]
-        ok = exact_origins(da[0]) == {"msg.ProvideLiquidity.liquidity_max_slippage"} and all_origins(vfield(vfield(da[1], "[*]"), "amount")) == {"info.funds[*].amount"} \
-            and all(o.startswith("Store(POOLS).assets") for o in all_origins(da[2])) and bool(all_origins(da[2])) \
-            and all(o.startswith("Store(POOLS).pool_type") or o.startswith("Const(PoolType") for o in all_origins(da[3]))
-        chk.expect(ok, "AGREE-slippage-args", "ProvideLiquidity", "assert_slippage_tolerance(caller tolerance, deposits, pool reserves, pool type)",
-                   "assert_slippage_tolerance args: %s" % [sorted(all_origins(x))[:3] for x in da], where(e))
+    # a tolerance above 1 on a funded pool is refused: with `tolerance > 1` assumed, no pool write
     multi = PredTrue("assume multi-asset", lambda pn, pa: pn == "eq" and origin_match(pa[0], r"^info\.funds\[\*\]$") and exact_origins(pa[1]) == {"Const(1_usize)"})
-    no_effects(chk, W, "CUT-slippage-before-write", PM, ("ProvideLiquidity",), [TryOk(r"helpers::assert_slippage_tolerance$")], "", effects=pool_writes, extra=[multi])
+    gt1 = PredFalse("assume tolerance > 1", lambda pn, pa: rel_sign(pn, pa, lambda v: exact_origins(v) == {T}, ">", lambda v: exact_origins(v) == {"Const(1)"}))
+    some = VariantEdge("assume tolerance given", r"^msg\.ProvideLiquidity\.liquidity_max_slippage$", ["None"])
+    funded = PredTrue("assume pool funded", lambda pn, pa: pn == "any" and origin_match(pa[0], r"^Store\(POOLS\)\.assets\[\*\]\.amount$", False) and
+                      "Const(0)" in all_origins(pa[0]))
+    pol = CutPolicy([multi, gt1, some, funded])
+    B = W.run(PM, "execute", ("ProvideLiquidity",), pol)
+    chk.expect("assume tolerance > 1" in pol.hits and not pool_writes(B), "CUT-tolerance-above-1", "refused", "a tolerance above 1 on a funded pool never reaches the pool write",
+               "a deposit tolerance > 1 can be accepted (guard found %s)" % ("assume tolerance > 1" in pol.hits), B.entry)
+    # each accept side of the deposit comparisons is must-pass-through (given a tolerance, a funded pool, multi-asset)
+    def dep_test(pn, pa):
+        if len(pa) < 2 or not hasattr(pa[0], "atoms") or not hasattr(pa[1], "atoms"):
+            return 0
+        inv = T in opmap(pa[0]) or T in opmap(pa[1])
+        one = exact_origins(pa[1]) == {"Const(1)"} or exact_origins(pa[0]) == {"Const(1)"}
+        if not inv or one:
+            return 0
+        s_ = rel_sign(pn, pa, lambda v: True, ">", lambda v: T in opmap(v) or "Store(POOLS).assets[*].amount" in opmap(v))
+        return -s_ if s_ else 0
+    dep_ok = PredTrue("deposit within tolerance", dep_test)
+    no_effects(chk, W, "CUT-slippage-before-write", PM, ("ProvideLiquidity",), [dep_ok], " [deposit]", effects=pool_writes, extra=[multi, some, funded])
 
-    # ---- minimum_receive
-    X = W.run(PM, "execute", ("ExecuteSwapOperations",), CutPolicy([], opaque=["pool_manager::helpers::compute_swap"]))
-    mr = [(e, p) for (e, p) in preds(X, "execute_swap_operations", ("lt",)) if exact_origins(p[3]) == {"msg.ExecuteSwapOperations.minimum_receive"}]
+    # ---------------- minimum_receive
+    X = W.run(PM, "execute", ("ExecuteSwapOperations",), CutPolicy([], opaque=[sc.N.CS]))
+    MR = "msg.ExecuteSwapOperations.minimum_receive"
+    mr = [t for t in cmp_preds(X) if exact_origins(t[1]) == {MR} or exact_origins(t[2]) == {MR}]
     final = [e for e in X.aggs(r"BankMsg::Send$") if "msg.ExecuteSwapOperations.receiver" in all_origins(X.d(field_val(e, "to_address")))]
     ok = len(mr) == 1 and len(final) == 1
     if ok:
+        other = mr[0][2] if exact_origins(mr[0][1]) == {MR} else mr[0][1]
         sent = set(flat_atoms(X.d(vfield(vfield(field_val(final[0], "amount"), "[*]"), "amount"))))
-        ok = set(flat_atoms(mr[0][1][2])) == sent
-    chk.expect(ok, "CUT-minimum-receive", "compared value", "minimum_receive is compared with exactly the amount that is sent",
-               "minimum_receive is compared with %s" % [show(p[2])[:200] for (e, p) in mr], where(mr[0][0]) if mr else X.entry)
-    cut = PredFalse("received >= minimum_receive", lambda pn, pa: pn == "lt" and exact_origins(pa[1]) == {"msg.ExecuteSwapOperations.minimum_receive"})
+        ok = set(flat_atoms(other)) == sent and exact_origins(mr[0][1]) == {MR} and mr[0][3]
+    chk.expect(ok, "CUT-minimum-receive", "compared value", "reject iff minimum_receive > the amount that is sent",
+               "minimum_receive comparison: %s" % [(show(t[1])[:120], show(t[2])[:120], t[3]) for t in mr], where(mr[0][0]) if mr else X.entry)
+    cut = PredTrue("received >= minimum_receive", lambda pn, pa: rel_sign(pn, pa, lambda v: exact_origins(v) != {MR}, ">=", lambda v: exact_origins(v) == {MR}))
     some = VariantEdge("assume minimum_receive given", r"^msg\.ExecuteSwapOperations\.minimum_receive$", ["None"])
 
-    def final_send(A):
-        return [e for e in A.aggs(r"BankMsg::Send$") if "msg.ExecuteSwapOperations.receiver" in all_origins(A.d(field_val(e, "to_address")))]
+    def final_send(Y):
+        return [e for e in Y.aggs(r"BankMsg::Send$") if "msg.ExecuteSwapOperations.receiver" in all_origins(Y.d(field_val(e, "to_address")))]
     no_effects(chk, W, "CUT-minimum-receive", PM, ("ExecuteSwapOperations",), [cut], " [given minimum_receive]", effects=final_send, extra=[some])
